@@ -523,7 +523,13 @@ func c06Replay(f map[string]string, evs []string, scale int) (string, bool) {
 			}
 		case "IT":
 			waiting = true
-			if !waitEOF(func(sc *c06SConn) bool { return !sc.owing() }, idle+4*time.Second) {
+			// every idle connection's timer fires: wait until the idle set holds only closed
+			// connections, and until the server has seen the client close the ones it still had open
+			dl := time.Now().Add(idle + 4*time.Second)
+			for t.VerifC06IdleOpen() > 0 && time.Now().Before(dl) {
+				time.Sleep(time.Millisecond)
+			}
+			if t.VerifC06IdleOpen() > 0 || !waitEOF(func(sc *c06SConn) bool { return !sc.owing() }, 4*time.Second) {
 				stuck = fmt.Sprintf("STUCK ev=%d(IT)", i)
 			}
 		case "DL":
